@@ -799,10 +799,56 @@ func c04Limits(o *out, r *rng, thorough bool) {
 	for i := 0; i < 200; i++ {
 		t.add(tnode{path: fmt.Sprintf("/many/f%03d.bin", i), kind: 'f', size: 1 + int64(i%3)*2048, seed: int64(i), mtime: genMtime(r)})
 	}
+	// a game whose PARAM.SFO is a huge sparse file and declares a 4 GiB TITLE_ID
+	sfoSize := int64(1 << 30)
+	if thorough {
+		sfoSize = 3 << 30
+	}
+	hugeSfo := sfoBytes([][2]string{{"TITLE_ID", "BLES00001"}})
+	copy(hugeSfo[24:28], []byte{0xff, 0xff, 0xff, 0xff})
+	for _, d := range []string{"/GAMES", "/GAMES/HUGE", "/GAMES/HUGE/PS3_GAME", "/GAMES/HUGE/PS3_GAME/USRDIR"} {
+		t.add(tnode{path: d, kind: 'd', mtime: genMtime(r)})
+	}
+	t.add(tnode{path: "/GAMES/HUGE/PS3_GAME/PARAM.SFO", kind: 'f', size: sfoSize, seed: sparseSeed, mtime: genMtime(r), overlays: []overlay{{0, hugeSfo}}})
+	t.add(tnode{path: "/GAMES/HUGE/PS3_GAME/USRDIR/EBOOT.BIN", kind: 'f', size: 5000, seed: 6, mtime: genMtime(r)})
 	withTempRoot(func(root string) {
 		if err := t.materialize(root); err != nil {
 			o.notes = append(o.notes, "materialize: "+err.Error())
 			return
+		}
+		// memory: the value length a PARAM.SFO declares must not drive the server's memory use
+		if srv, err := startServer(root, ""); err != nil {
+			o.emit(fmt.Sprintf("c04 memsfo %d", sfoSize), "proc=0 mem=unknown note=server-did-not-start", "", "memsfo")
+		} else {
+			base := srv.peakRSSkB()
+			for i := 0; i < 2; i++ {
+				func() {
+					c, err := net.DialTimeout("tcp4", srv.addr(), time.Second)
+					if err != nil {
+						return
+					}
+					defer c.Close()
+					c.SetDeadline(time.Now().Add(120 * time.Second))
+					c.Write(creq{op: opOpenFile, path: "/***PS3***/GAMES/HUGE"}.bytes())
+					io.ReadFull(c, make([]byte, 16))
+				}()
+			}
+			peak := srv.peakRSSkB()
+			mem := "ok"
+			if peak-base > 200*1024 {
+				mem = fmt.Sprintf("high(%dMiB)", (peak-base)/1024)
+			}
+			proc, alive := 0, 0
+			if statRootProbe(srv.addr(), 5*time.Second) {
+				alive = 1
+			}
+			if srv.alive() {
+				proc = 1
+			}
+			o.count("memsfo")
+			o.notes = append(o.notes, fmt.Sprintf("PARAM.SFO probe: %d-byte sparse file declaring a 4 GiB value, peak RSS %d kB over base %d kB", sfoSize, peak, base))
+			o.emit(fmt.Sprintf("c04 memsfo %d", sfoSize), fmt.Sprintf("proc=%d mem=%s alive=%d", proc, mem, alive), "", "memsfo")
+			srv.stop()
 		}
 		// descriptor exhaustion: more clients than the process may have descriptors
 		for _, lim := range []int{40, 100} {
